@@ -641,3 +641,40 @@ func VH_overflow(n int, lead int) {
 		verifAssert("literal-value-is-parsefloat-of-transliterated-lexeme", isF && v == want)
 	}
 }
+
+// VH_fraction (C10): 0.000…0d and 0.000…0dd with 1-30 digits after the point (d = 1..9, in either
+// script): the literal's value is ParseFloat of the transliterated lexeme. These texts are
+// concrete, so the documented function itself is the oracle (the real strconv runs in the
+// engine as it does natively) — a direct conversion that is exact only up to some power of ten
+// shows at the first length where it is not.
+func VH_fraction(two int) {
+	frac := 1 + verifChoice(30)
+	d := 1 + verifChoice(9)
+	bangla := verifChoice(2) == 1
+	text := "0."
+	for i := 1; i < frac; i++ {
+		text += "0"
+	}
+	text += string(rune('0' + d))
+	if two == 1 {
+		text += string(rune('0' + (d+6)%10))
+	}
+	src := []rune(text)
+	if bangla {
+		for i, r := range src {
+			if r >= '0' && r <= '9' {
+				src[i] = r - '0' + 0x9E6
+			}
+		}
+	}
+	utils.HadError = false
+	s := NewScanner(src)
+	s.scanToken()
+	want, err := strconv.ParseFloat(text, 64)
+	verifAssert("literal-in-range-parses", err == nil)
+	verifAssert("literal-in-range-is-a-token", len(s.tokens) == 1 && !utils.HadError && s.current == len(src))
+	if len(s.tokens) == 1 {
+		v, isF := s.tokens[0].Literal.(float64)
+		verifAssert("literal-value-is-parsefloat-of-transliterated-lexeme", isF && v == want)
+	}
+}
